@@ -49,6 +49,16 @@ for line in sys.stdin:
         elif c["call"] == "slice_step":
             r = body.slice_step(c["by"]); out = {"frames": frames_of(r), "fps": float(r.fps)}
             out["again"] = frames_of(body.slice_step(c["by"]))
+        elif c["call"] == "pose_sequence":
+            # the operations through the Pose object (pass-through to its body), before and after the pose's body was replaced
+            from pose_format import Pose
+            from pose_format.pose_header import PoseHeader, PoseHeaderComponent, PoseHeaderDimensions
+            pose = Pose(PoseHeader(0.2, PoseHeaderDimensions(10, 10, 0), [PoseHeaderComponent("c", ["a", "b"], [(0, 1)], [(1, 2, 3)], "XYC")]), body)
+            first = pose.slice_step(c["by"])
+            pose.body = pose.body.select_frames(c["ixs"])
+            r = pose.slice_step(c["by"]).body
+            out = {"frames": frames_of(r), "fps": float(r.fps), "first": frames_of(first.body)}
+            body = mk(c["F"], c.get("fps", 30.0))                  # (the source check below looks at an untouched body)
         else:
             r, idx = getattr(body, c["call"])(*c["args"])
             idx = [int(x) for x in (np.asarray(idx) if be == "tf" else idx)]
@@ -89,6 +99,9 @@ def gen_cases(rng, ctx):
                 variants.append(rep)
             for v in variants:
                 cases.append({"F": F, "call": "select_frames", "ixs": v, "seed": 0})
+        for by in (1, 2, 3):
+            ixs = [rng.randrange(F) for _ in range(rng.randint(1, 6))]
+            cases.append({"F": F, "call": "pose_sequence", "by": by, "ixs": ixs, "seed": 0})
         for by in sorted({1, 2, 3, 7, F, F + 1}):
             cases.append({"F": F, "call": "slice_step", "by": by, "seed": 0})
             for fps in (25, 30, 29.97, 0.5):                 # a Python int (v0.1 files, interpolate(new_fps=int), user code) and rates no step divides
@@ -125,6 +138,11 @@ def run(ctx):
             if c["call"] == "select_frames":
                 if o["frames"] != [src[i] for i in c["ixs"]] or o["fps"] != c.get("fps", 30.0):
                     ctx.violation("select_frames does not return exactly the requested frames in the requested order", info, {"got": o["frames"]}, True, size=F, signature=sig)
+                continue
+            if c["call"] == "pose_sequence":
+                want = [src[i] for i in c["ixs"]][::c["by"]]
+                if o["frames"] != want or abs(o["fps"] - 30.0 / c["by"]) > 1e-6 or o["first"] != src[::c["by"]]:
+                    ctx.violation("slice_step through the Pose object does not act on the body the pose holds now", info, {"got": o["frames"], "want": want, "fps": o["fps"]}, True, size=F, signature=dict(sig, clause="pose object"))
                 continue
             if c["call"] == "slice_step":
                 if o["frames"] != src[::c["by"]] or abs(o["fps"] - c.get("fps", 30.0) / c["by"]) > 1e-6 * max(1.0, c.get("fps", 30.0)):
